@@ -58,6 +58,15 @@ func (g *Gen) hugeTtl() (int64, bool) {
 	return []int64{math.MaxInt64, math.MaxInt64 - Base - 1500, math.MaxInt64 - Base - 2500}[g.D.Uni(3, "hugettlv")], true
 }
 
+// promiseTimeout: the configured timeout of a schedule's promises, relative to the occurrence: seconds, or (with
+// HugeTtlOneIn set) "never": a value whose sum with the occurrence time does not fit into 64 bits
+func (g *Gen) promiseTimeout() int64 {
+	if h, ok := g.hugeTtl(); ok {
+		return h
+	}
+	return int64(g.D.Int(1, 5, "ptimeout")) * 1000
+}
+
 func (g *Gen) taskTtl() int {
 	if h, ok := g.hugeTtl(); ok {
 		return int(h)
@@ -216,7 +225,7 @@ func (g *Gen) Req(now int64) *t_api.Request {
 			ptags["resonate:invoke"] = g.pick(g.RouteTags, "proutetag")
 		}
 		return &t_api.Request{Kind: t_api.CreateSchedule, CreateSchedule: &t_api.CreateScheduleRequest{Id: id, Description: "d", Cron: g.pick(g.Crons, "cron"),
-			Tags: map[string]string{}, PromiseId: g.pick([]string{"{{.id}}.{{.timestamp}}", id + ".{{.timestamp}}", "x.{{.timestamp}}"}, "tmpl"), PromiseTimeout: int64(g.D.Int(1, 5, "ptimeout")) * 1000,
+			Tags: map[string]string{}, PromiseId: g.pick([]string{"{{.id}}.{{.timestamp}}", id + ".{{.timestamp}}", "x.{{.timestamp}}"}, "tmpl"), PromiseTimeout: g.promiseTimeout(),
 			PromiseParam: g.value("pparam"), PromiseTags: ptags, IdempotencyKey: g.key("ikey")}}
 	case "ReadSchedule":
 		return &t_api.Request{Kind: t_api.ReadSchedule, ReadSchedule: &t_api.ReadScheduleRequest{Id: g.pick(g.Scheds, "sched")}}
